@@ -76,6 +76,7 @@ FRAME_FIELDS = {'name': 'str', 'channels': {'cls': 'Attribute', 'fields': {'_val
                 'index_type': AT, 'spacing': AT, 'index_min': AT, 'index_max': AT, 'direction': AT}
 KEEP = lambda a: (f'user-supplied-{a}-is-written-unchanged', f'implies(old(self.{a}._value) is not None, self.{a}._value is old(self.{a}._value))')
 IDX = "data_index[:]"
+KRN = f"self._compute_spacing_and_direction({IDX})"
 CONTRACTS['FrameItem._setup_frame_params_from_data'] = dict(
     props=['C13', 'C17', 'C05'], globals=GC, self_fields=FRAME_FIELDS,
     params={'data': {'cls': 'SourceDataWrapper', 'fields': {}}}, returns='none',
@@ -91,7 +92,13 @@ CONTRACTS['FrameItem._setup_frame_params_from_data'] = dict(
              ('row-number-index-min-is-1', 'implies(self.index_type._value is None and old(self.index_min._value) is None, self.index_min._value == converted(self.index_min, 1))'),
              ('row-number-index-max-is-the-number-of-rows-written', f'implies(self.index_type._value is None and old(self.index_max._value) is None, self.index_max._value == converted(self.index_max, {IDX}.shape[0]))'),
              ('index-min-is-the-minimum-of-the-index-rows-written', f'implies(self.index_type._value is not None and old(self.index_min._value) is None, self.index_min._value == converted(self.index_min, {IDX}.min()))'),
-             ('index-max-is-the-maximum-of-the-index-rows-written', f'implies(self.index_type._value is not None and old(self.index_max._value) is None, self.index_max._value == converted(self.index_max, {IDX}.max()))')])
+             ('index-max-is-the-maximum-of-the-index-rows-written', f'implies(self.index_type._value is not None and old(self.index_max._value) is None, self.index_max._value == converted(self.index_max, {IDX}.max()))'),
+             # what the tolerance kernel decided (K = (uniform step or None, monotonic sense or None)) is what gets written, nothing else
+             ('spacing-is-the-uniform-step-when-there-is-one', f'implies(self.index_type._value is not None and old(self.spacing._value) is None and {KRN}[0] is not None, self.spacing._value == converted(self.spacing, {KRN}[0]))'),
+             ('spacing-is-absent-when-the-steps-are-not-uniform', f'implies(self.index_type._value is not None and old(self.spacing._value) is None and {KRN}[0] is None, self.spacing._value is None)'),
+             ('direction-reflects-the-monotonic-sense-when-spacing-is-absent', f'implies(self.index_type._value is not None and old(self.direction._value) is None and {KRN}[0] is None and {KRN}[1] is not None, '
+                                                                                f'self.direction._value == converted(self.direction, "INCREASING" if {KRN}[1] else "DECREASING"))'),
+             ('no-direction-without-a-monotonic-sense', f'implies(self.index_type._value is not None and old(self.direction._value) is None and {KRN}[1] is None, self.direction._value is None)')])
 
 # ---------------------------------------------------------------------------------------------- per-subtype converters (C05 step 3)
 YES = "('1', 'true', 't', 'yes', 'y')"
@@ -214,3 +221,23 @@ CONTRACTS['DimensionedItem._check_or_set_value_dimensionality'] = dict(
     params={'value': 'oneof[none,opq:nested]', 'value_label': 'str?'}, returns='none',
     may_raise=['RuntimeError', 'AnyException'],
     ensures=[('a-ragged-value-is-never-accepted', 'value is None or not np_ragged(value)')])
+
+# ---------------------------------------------------------------------------------------------- C13: the tolerance kernel
+# Proof for index arrays of ANY length >= 2 under the step model X-NPSTEP (pyvc/npstats.py): the array is abstracted by its least and
+# greatest consecutive difference, the median of the differences and the number of (distinct) differences; element-wise numpy
+# arithmetic is interpreted over the reals. Stated from the property and the documented rule, not from the code:
+#   uniform within the documented tolerance  :=  all steps equal, or (median m != 0 and (1 - d/m)**2 < 0.001 for EVERY step d);
+#   the truth set of (1 - d/m)**2 < 0.001 is an interval in d, so "every step" is "the least and the greatest step" (convexity).
+SPEC_UFS.update({'step_min': (('opq',), 'real'), 'step_max': (('opq',), 'real'), 'step_median': (('opq',), 'real')})
+LO, HI, MED = 'step_min(index_data)', 'step_max(index_data)', 'step_median(index_data)'
+NEAR = f'({MED} != 0 and (1 - {LO} / {MED}) ** 2 < 0.001 and (1 - {HI} / {MED}) ** 2 < 0.001)'
+CONTRACTS['FrameItem._compute_spacing_and_direction'] = dict(
+    props=['C13'], params={'index_data': 'opq:ndarray'}, returns='any',
+    # excluded here, covered natively by the open findings: one row (no step), integer wrap-around in np.diff, NaN
+    ensures=[('increasing-exactly-when-no-step-is-negative-and-some-step-is-positive', f'(result[1] is True) == ({LO} >= 0 and {HI} > 0)'),
+             ('decreasing-exactly-when-no-step-is-positive-and-some-step-is-negative', f'(result[1] is False) == ({HI} <= 0 and {LO} < 0)'),
+             ('no-direction-otherwise', f'(result[1] is None) == (({LO} == 0 and {HI} == 0) or ({LO} < 0 and {HI} > 0))'),
+             ('equal-steps-give-that-step', f'implies({LO} == {HI}, result[0] == {LO})'),
+             ('nearly-uniform-steps-give-their-median', f'implies({LO} != {HI} and {NEAR}, result[0] == {MED})'),
+             ('spacing-is-absent-when-the-steps-are-not-uniform-within-the-tolerance', f'implies({LO} != {HI} and not {NEAR}, result[0] is None)'),
+             ('spacing-is-present-only-when-uniform-within-the-tolerance', f'implies(result[0] is not None, {LO} == {HI} or {NEAR})')])
